@@ -1539,11 +1539,11 @@ func (cl *cluster) maxHeight() base.Height {
 
 func init() {
 	simkit.Register(&simkit.Harness{
-		ID:  "CL",
-		Run: clusterRun,
-		Real: []string{"isaacstates.States with the real booting/joining/consensus/syncing/broken/stopped handlers (voteproofHandler, baseBallotHandler)", "isaacstates.Ballotbox, DefaultBallotBroadcaster, DefaultBallotStuckResolver, ballotBroadcastTimers", "isaac.SuffrageVoting, LastVoteproofsHandler", "isaac.ProposalMaker, BaseProposalSelector, BlockBasedProposerSelector", "isaac.ProposalProcessors, DefaultProposalProcessor, isaacblock.Writer, LeveldbBlockWrite", "isaacstates.Syncer", "isaacdatabase.TempPool on goleveldb (memory storage)"},
-		Stub: []string{"transport between the nodes (simulated network: loss, delay, duplication, partitions)", "block files: a recording FS writer; the committed chain of a node is a slice that survives crashes", "block import of the syncer copies the block record of a reachable peer", "memberlist join/leave are no-ops; handover is absent"},
-		Rule: "each run draws 1-4 whole nodes, a threshold, one of three timing profiles, and 2-5 phases; in fault runs each phase but the last starts with a partition, the crash of a node (its tasks are never released again), the restart of crashed nodes from their durable state (chain, ballot/proposal pool), or a toggle of allow-consensus; the last phase heals everything. Clauses by focus property: C08 one locally signed ballot fact per (stage point, suffrage-confirm flag) and node across restarts; C06 the last-voteproofs position of every node moves only as the statement allows; C09 STOPPED is left only for BOOTING/BROKEN, the switched callback agrees with Current(), JOINING/CONSENSUS are not entered while consensus is not allowed; C11 a block enters a node's chain once per height, on its predecessor, from consensus only with the ACCEPT majority for exactly that manifest and proposal, and (in runs without expel voteproofs) all nodes store the same manifest per height; C04 every voteproof handled passes the validation other nodes apply; C38 one proposal per (point, previous block) and node. distinct = event-log hash",
+		ID:          "CL",
+		Run:         clusterRun,
+		Real:        []string{"isaacstates.States with the real booting/joining/consensus/syncing/broken/stopped handlers (voteproofHandler, baseBallotHandler)", "isaacstates.Ballotbox, DefaultBallotBroadcaster, DefaultBallotStuckResolver, ballotBroadcastTimers", "isaac.SuffrageVoting, LastVoteproofsHandler", "isaac.ProposalMaker, BaseProposalSelector, BlockBasedProposerSelector", "isaac.ProposalProcessors, DefaultProposalProcessor, isaacblock.Writer, LeveldbBlockWrite", "isaacstates.Syncer", "isaacdatabase.TempPool on goleveldb (memory storage)"},
+		Stub:        []string{"transport between the nodes (simulated network: loss, delay, duplication, partitions)", "block files: a recording FS writer; the committed chain of a node is a slice that survives crashes", "block import of the syncer copies the block record of a reachable peer", "memberlist join/leave are no-ops; handover is absent"},
+		Rule:        "each run draws 1-4 whole nodes, a threshold, one of three timing profiles, and 2-5 phases; in fault runs each phase but the last starts with a partition, the crash of a node (its tasks are never released again), the restart of crashed nodes from their durable state (chain, ballot/proposal pool), or a toggle of allow-consensus; the last phase heals everything. Clauses by focus property: C08 one locally signed ballot fact per (stage point, suffrage-confirm flag) and node across restarts; C06 the last-voteproofs position of every node moves only as the statement allows; C09 STOPPED is left only for BOOTING/BROKEN, the switched callback agrees with Current(), JOINING/CONSENSUS are not entered while consensus is not allowed; C11 a block enters a node's chain once per height, on its predecessor, from consensus only with the ACCEPT majority for exactly that manifest and proposal, and (in runs without expel voteproofs) all nodes store the same manifest per height; C04 every voteproof handled passes the validation other nodes apply; C38 one proposal per (point, previous block) and node. distinct = event-log hash",
 		Assumptions: []string{"a fork that follows voteproofs with expels is the recorded C03 finding and is counted (probe fork_after_expel_voteproofs_not_judged), not judged by the C11 clause"},
 	})
 }
